@@ -277,7 +277,12 @@ def decide(pid, tier):
                           (comp.startswith("prop.") and comp.count(".") == 1)):
                 continue
             attributed = None
+            # a known finding is a defect the MODEL reproduces: it can explain a property failure only on a case where
+            # model and code agree; where they disagree the failure is reported with this case as the failing input
+            corr_ok = all(v for c2, v in comps.items() if c2.startswith("corr."))
             for k in known:
+                if comp.startswith("prop.") and not corr_ok:
+                    break
                 if comp in k.get("components", []) and comps.get(k["guard"]) is False:
                     attributed = k
                     break
